@@ -33,6 +33,67 @@ theorem sendCount_append (xs ys : List Ev) : sendCount (xs ++ ys) = sendCount xs
   | nil => simp [sendCount]
   | cons e xs ih => cases e <;> simp [sendCount, ih] <;> omega
 
+/-- request ids of the commands put on the wire, in chronological order (the log is newest
+first) -/
+def sentIds : List Ev → List Nat
+  | [] => []
+  | .send b _ _ :: r => sentIds r ++ [C06.pktId b]
+  | _ :: r => sentIds r
+
+/-- `k` consecutive request ids starting at `id` (mod 2^16) -/
+def idsUp (id : Nat) : Nat → List Nat
+  | 0 => []
+  | k + 1 => id :: idsUp ((id + 1) % 65536) k
+
+theorem sentIds_append (xs ys : List Ev) : sentIds (xs ++ ys) = sentIds ys ++ sentIds xs := by
+  induction xs with
+  | nil => simp [sentIds]
+  | cons e xs ih => cases e <;> simp [sentIds, ih]
+
+theorem sentIds_nosend (evs : List Ev) (h : sendCount evs = 0) : sentIds evs = [] := by
+  induction evs with
+  | nil => rfl
+  | cons e r ih =>
+    cases e with
+    | send b t e => simp [sendCount] at h
+    | recv bl t res => simp only [sendCount] at h; simp [sentIds, ih h]
+    | sleep m => simp only [sendCount] at h; simp [sentIds, ih h]
+    | ctl q t e => simp only [sendCount] at h; simp [sentIds, ih h]
+
+theorem idsUp_append (id a b : Nat) (hid : id < 65536) :
+    idsUp id (a + b) = idsUp id a ++ idsUp ((id + a) % 65536) b := by
+  induction a generalizing id with
+  | zero =>
+    simp only [Nat.zero_add, Nat.add_zero, idsUp, List.nil_append, Nat.mod_eq_of_lt hid]
+  | succ k ih =>
+    have : k + 1 + b = (k + b) + 1 := by omega
+    rw [this]
+    simp only [idsUp, ih _ (Nat.mod_lt _ (by omega)), List.cons_append]
+    have : ((id + 1) % 65536 + k) % 65536 = (id + (k + 1)) % 65536 := by omega
+    rw [this]
+
+/-- **Request-id accounting** of a stretch of log `evs` (newest first) during which
+`next_req_id` went from `id` to `id'`: the id advanced by exactly the number of commands put
+on the wire, and those commands carry `id, id+1, …` (mod 2^16) in order — one fresh id per
+command sent, nothing else ever changes the id. -/
+def IdsOk (id id' : Nat) (evs : List Ev) : Prop :=
+  id < 65536 → id' = (id + sendCount evs) % 65536 ∧ sentIds evs = idsUp id (sendCount evs)
+
+theorem IdsOk.nil (id : Nat) : IdsOk id id [] := by
+  intro h; exact ⟨by simp [sendCount, Nat.mod_eq_of_lt h], rfl⟩
+
+theorem IdsOk.nosend (id : Nat) (evs : List Ev) (h : sendCount evs = 0) : IdsOk id id evs := by
+  intro hid; rw [h]; exact ⟨by simp [Nat.mod_eq_of_lt hid], sentIds_nosend evs h⟩
+
+theorem IdsOk.trans {id id1 id2 : Nat} {e1 e2 : List Ev} (h1 : IdsOk id id1 e1)
+    (h2 : IdsOk id1 id2 e2) : IdsOk id id2 (e2 ++ e1) := by
+  intro hid
+  obtain ⟨a1, a2⟩ := h1 hid
+  obtain ⟨b1, b2⟩ := h2 (by rw [a1]; exact Nat.mod_lt _ (by omega))
+  rw [sendCount_append, sentIds_append, a2, b2, a1]
+  refine ⟨by rw [b1, a1]; omega, ?_⟩
+  rw [Nat.add_comm (sendCount e2), idsUp_append _ _ _ hid]
+
 /-- The transport never reports more received bytes than the buffer it was given holds
 (a libusb bulk transfer cannot; an oversized device packet is `LIBUSB_ERROR_OVERFLOW`). -/
 def Honest {σ : Type} (dev : Dev σ) : Prop :=
@@ -195,6 +256,7 @@ structure SendInv {σ α : Type} (p : Profile) (scdAs : Ack.AckPacket → Ack.R 
   log : ∃ evs, s'.logRev = evs ++ s.logRev ∧ recvCount evs ≤ s.h.cfg.retry * sendCount evs ∧
     EvsOk s.h.cfg.maxCmd s.h.cfg.xfer evs
   one_send : ∃ evs, s'.logRev = evs ++ s.logRev ∧ sendCount evs ≤ 1 ∧ recvCount evs ≤ s.h.cfg.retry
+  ids : ∃ evs, s'.logRev = evs ++ s.logRev ∧ IdsOk s.h.nextReqId s'.h.nextReqId evs
   /-- an `Ok` result: the id advanced, and the events of the transaction are the command
   (sent successfully), then receives only, the LAST of which delivered the genuine answer. -/
   ok : ∀ v, r = .ok v → s'.h.nextReqId = (s.h.nextReqId + 1) % 2 ^ 16 ∧
@@ -212,7 +274,8 @@ theorem sendCmd_inv (hh : Honest dev) (p : Profile) (scdAs : Ack.AckPacket → A
   by_cases hguard : c.cmdLen > s.h.cfg.maxCmd
   · simp only [sendCmd, if_pos hguard]
     exact ⟨by simp, rfl, rfl, rfl, id, ⟨[], by simp, by simp [recvCount], EvsOk.nil _ _⟩,
-      ⟨[], by simp, by simp [sendCount], by simp [recvCount]⟩, fun v h => by simp at h⟩
+      ⟨[], by simp, by simp [sendCount], by simp [recvCount]⟩, ⟨[], by simp, IdsOk.nil _⟩,
+      fun v h => by simp at h⟩
   · have hlen := (C09.len_agree p c s.h.nextReqId hcons).1
     have hsink := (C09.sink_exact c s.h.nextReqId
       (max s.h.bufLen (max c.cmdLen c.maximumAckLen))).2.2.1 (by rw [hlen]; omega)
@@ -226,6 +289,14 @@ theorem sendCmd_inv (hh : Honest dev) (p : Profile) (scdAs : Ack.AckPacket → A
       exact ⟨by rw [hlen]; exact hmc, rfl⟩
     have hid16 : s.h.nextReqId < 2 ^ 16 → (s.h.nextReqId + 1) % 2 ^ 16 < 2 ^ 16 :=
       fun _ => Nat.mod_lt _ (by omega)
+    have hidsOne : ∀ (pre : List Ev) (e : Option UsbErr), sendCount pre = 0 →
+        IdsOk s.h.nextReqId ((s.h.nextReqId + 1) % 2 ^ 16)
+          (pre ++ [.send (c.serialize s.h.nextReqId) s.h.cfg.xfer e]) := by
+      intro pre e hpre hid
+      rw [sendCount_append, sentIds_append, hpre, sentIds_nosend pre hpre]
+      simp only [sendCount, sentIds, List.nil_append, List.append_nil, Nat.zero_add, idsUp,
+        C06.pktId_serialize c _ (by omega : s.h.nextReqId < 2 ^ 16)]
+      exact ⟨trivial, trivial⟩
     cases r with
     | some e =>
       simp only [St.push]
@@ -233,7 +304,9 @@ theorem sendCmd_inv (hh : Honest dev) (p : Profile) (scdAs : Ack.AckPacket → A
         ⟨[.send (c.serialize s.h.nextReqId) s.h.cfg.xfer (some e)], by simp,
           by simp [recvCount], hsendOk _ (by omega)⟩,
         ⟨[.send (c.serialize s.h.nextReqId) s.h.cfg.xfer (some e)], by simp,
-          by simp [sendCount], by simp [recvCount]⟩, fun v h => by simp at h⟩
+          by simp [sendCount], by simp [recvCount]⟩,
+        ⟨[.send (c.serialize s.h.nextReqId) s.h.cfg.xfer (some e)], by simp,
+          by simpa using hidsOne [] (some e) rfl⟩, fun v h => by simp at h⟩
     | none =>
       simp only
       have := recvLoop_inv hh p scdAs hscd (ackKindOf c) s.h.nextReqId s.h.cfg.retry
@@ -244,13 +317,16 @@ theorem sendCmd_inv (hh : Honest dev) (p : Profile) (scdAs : Ack.AckPacket → A
       obtain ⟨h1, h2, ⟨evs, hl, hrc, hsc, hok, hg⟩⟩ := this
       refine ⟨h1, by rw [h2], by rw [h2], by rw [h2], fun h => by rw [h2]; exact hid16 h,
         ⟨evs ++ [.send (c.serialize s.h.nextReqId) s.h.cfg.xfer none], ?_, ?_, ?_⟩,
-        ⟨evs ++ [.send (c.serialize s.h.nextReqId) s.h.cfg.xfer none], ?_, ?_, ?_⟩, ?_⟩
+        ⟨evs ++ [.send (c.serialize s.h.nextReqId) s.h.cfg.xfer none], ?_, ?_, ?_⟩,
+        ⟨evs ++ [.send (c.serialize s.h.nextReqId) s.h.cfg.xfer none], ?_, ?_⟩, ?_⟩
       · rw [hl]; simp
       · rw [recvCount_append, sendCount_append, hsc]; simp only [recvCount, sendCount]; omega
       · exact (hok _).append (hsendOk _ (by omega))
       · rw [hl]; simp
       · rw [sendCount_append, hsc]; simp [sendCount]
       · rw [recvCount_append]; simp only [recvCount]; omega
+      · rw [hl]; simp
+      · rw [h2]; exact hidsOne evs none hsc
       · intro v hv
         obtain ⟨bl, t, bytes, pre, he, hb, hgen⟩ := hg v hv
         exact ⟨by rw [h2], evs, bl, t, bytes, pre, hl, hsc, he, hb, hgen⟩
@@ -268,20 +344,23 @@ structure OpInv {σ α : Type} (s s' : St σ) (r : R α) : Prop where
   id16 : s.h.nextReqId < 2 ^ 16 → s'.h.nextReqId < 2 ^ 16
   log : ∃ evs, s'.logRev = evs ++ s.logRev ∧ recvCount evs ≤ s.h.cfg.retry * sendCount evs ∧
     EvsOk s.h.cfg.maxCmd s.h.cfg.xfer evs
+  ids : ∃ evs, s'.logRev = evs ++ s.logRev ∧ IdsOk s.h.nextReqId s'.h.nextReqId evs
 
 theorem OpInv.refl {σ α : Type} (s : St σ) (r : R α) (h : r ≠ .panic) : OpInv s s r :=
-  ⟨h, rfl, rfl, rfl, id, ⟨[], by simp, by simp [recvCount], EvsOk.nil _ _⟩⟩
+  ⟨h, rfl, rfl, rfl, id, ⟨[], by simp, by simp [recvCount], EvsOk.nil _ _⟩,
+    ⟨[], by simp, IdsOk.nil _⟩⟩
 
 theorem OpInv.of_txn {σ α β : Type} {p : Profile} {scdAs : Ack.AckPacket → Ack.R α}
     {c : Cmd.Cmd} {s s' : St σ} {r : R α} (h : SendInv p scdAs c s s' r)
     (r' : R β) (hr : r' ≠ .panic) : OpInv s s' r' :=
-  ⟨hr, h.cfg, h.opened, h.abrm, h.id16, h.log⟩
+  ⟨hr, h.cfg, h.opened, h.abrm, h.id16, h.log, h.ids⟩
 
 theorem OpInv.trans {σ α β : Type} {s s1 s2 : St σ} {r1 : R α} {r2 : R β}
     (h1 : OpInv s s1 r1) (h2 : OpInv s1 s2 r2) : OpInv s s2 r2 := by
-  obtain ⟨_, a2, a3, a4, a5, ⟨e1, l1, c1, o1⟩⟩ := h1
-  obtain ⟨b1, b2, b3, b4, b5, ⟨e2, l2, c2, o2⟩⟩ := h2
-  refine ⟨b1, b2.trans a2, b3.trans a3, b4.trans a4, fun h => b5 (a5 h), ⟨e2 ++ e1, ?_, ?_, ?_⟩⟩
+  obtain ⟨_, a2, a3, a4, a5, ⟨e1, l1, c1, o1⟩, ⟨f1, m1, i1⟩⟩ := h1
+  obtain ⟨b1, b2, b3, b4, b5, ⟨e2, l2, c2, o2⟩, ⟨f2, m2, i2⟩⟩ := h2
+  refine ⟨b1, b2.trans a2, b3.trans a3, b4.trans a4, fun h => b5 (a5 h), ⟨e2 ++ e1, ?_, ?_, ?_⟩,
+    ⟨f2 ++ f1, by rw [m2, m1]; simp, i1.trans i2⟩⟩
   · rw [l2, l1]; simp
   · rw [recvCount_append, sendCount_append, Nat.mul_add]
     rw [a2] at c2
@@ -698,17 +777,20 @@ structure WeakInv {σ α : Type} (s s' : St σ) (r : R α) : Prop where
   opened : s'.h.opened = s.h.opened
   id16 : s.h.nextReqId < 2 ^ 16 → s'.h.nextReqId < 2 ^ 16
   log : ∃ evs, s'.logRev = evs ++ s.logRev ∧ recvCount evs ≤ s.h.cfg.retry * sendCount evs
+  ids : ∃ evs, s'.logRev = evs ++ s.logRev ∧ IdsOk s.h.nextReqId s'.h.nextReqId evs
+  u32 : s.h.cfg.maxCmd < 2 ^ 32 → s'.h.cfg.maxCmd < 2 ^ 32
 
 theorem WeakInv.of_op {α : Type} {s s' : St σ} {r : R α} (h : OpInv s s' r) : WeakInv s s' r :=
   ⟨h.no_panic, by rw [h.cfg], h.opened, h.id16, by
     obtain ⟨evs, h1, h2, _⟩ := h.log
-    exact ⟨evs, h1, h2⟩⟩
+    exact ⟨evs, h1, h2⟩, h.ids, by rw [h.cfg]; exact id⟩
 
 theorem WeakInv.trans {α β : Type} {s s1 s2 : St σ} {r1 : R α} {r2 : R β}
     (h1 : WeakInv s s1 r1) (h2 : WeakInv s1 s2 r2) : WeakInv s s2 r2 := by
-  obtain ⟨_, a2, a3, a5, ⟨e1, l1, c1⟩⟩ := h1
-  obtain ⟨b1, b2, b3, b5, ⟨e2, l2, c2⟩⟩ := h2
-  refine ⟨b1, b2.trans a2, b3.trans a3, fun h => b5 (a5 h), ⟨e2 ++ e1, ?_, ?_⟩⟩
+  obtain ⟨_, a2, a3, a5, ⟨e1, l1, c1⟩, ⟨f1, m1, i1⟩, u1⟩ := h1
+  obtain ⟨b1, b2, b3, b5, ⟨e2, l2, c2⟩, ⟨f2, m2, i2⟩, u2⟩ := h2
+  refine ⟨b1, b2.trans a2, b3.trans a3, fun h => b5 (a5 h), ⟨e2 ++ e1, ?_, ?_⟩,
+    ⟨f2 ++ f1, by rw [m2, m1]; simp, i1.trans i2⟩, fun h => u2 (u1 h)⟩
   · rw [l2, l1]; simp
   · rw [recvCount_append, sendCount_append, Nat.mul_add]
     rw [a2] at c2
@@ -716,7 +798,7 @@ theorem WeakInv.trans {α β : Type} {s s1 s2 : St σ} {r1 : R α} {r2 : R β}
 
 theorem WeakInv.change {α β : Type} {s s' : St σ} {r : R α} (h : WeakInv s s' r) (r' : R β)
     (hr : r' ≠ .panic) : WeakInv s s' r' :=
-  ⟨hr, h.retry, h.opened, h.id16, h.log⟩
+  ⟨hr, h.retry, h.opened, h.id16, h.log, h.ids, h.u32⟩
 
 theorem readReg_inv (hh : Honest dev) (p : Profile) (s : St σ) (addr len : Nat)
     (hl : len < 2 ^ 64) :
@@ -734,6 +816,29 @@ theorem readReg_inv (hh : Honest dev) (p : Profile) (s : St σ) (addr len : Nat)
   · exact (WeakInv.of_op hinv).change _ (by simp)
   · exact absurd rfl hinv.no_panic
 
+theorem readReg_lt {dev : Dev σ} (p : Profile) (s s' : St σ) (addr len v : Nat)
+    (h : readReg dev p s addr len = (s', .ok v)) : v < 256 ^ len := by
+  unfold readReg at h
+  rcases hr : Control.read dev p s addr len with ⟨s1, r1⟩
+  rw [hr] at h
+  rcases r1 with bs | e | _
+  · simp only at h
+    by_cases hl : bs.length = len
+    · simp only [hl, ne_eq, not_true_eq_false, if_false, Prod.mk.injEq, Res.ok.injEq] at h
+      rw [← h.2, ← hl]
+      exact fromLE_lt bs
+    · simp [hl] at h
+  · simp at h
+  · simp at h
+
+theorem readSbrmReg_lt {dev : Dev σ} (p : Profile) (s s' : St σ) (sbrm : Nat) (reg : Nat × Nat)
+    (v : Nat) (h : readSbrmReg dev p s sbrm reg = (s', .ok v)) : v < 256 ^ reg.2 := by
+  unfold readSbrmReg registerAddress at h
+  by_cases hb : sbrm + reg.1 < 2 ^ 64
+  · simp only [if_pos hb] at h
+    exact readReg_lt p s s' _ _ v h
+  · simp [if_neg hb] at h
+
 theorem readSbrmReg_inv (hh : Honest dev) (p : Profile) (s : St σ) (sbrm : Nat) (reg : Nat × Nat)
     (hl : reg.2 < 2 ^ 64) :
     WeakInv s (readSbrmReg dev p s sbrm reg).1 (readSbrmReg dev p s sbrm reg).2 := by
@@ -742,13 +847,13 @@ theorem readSbrmReg_inv (hh : Honest dev) (p : Profile) (s : St σ) (sbrm : Nat)
   · simp only [if_pos h]
     exact readReg_inv hh p s _ _ hl
   · simp only [if_neg h]
-    exact ⟨by simp, rfl, rfl, id, ⟨[], by simp, by simp [recvCount]⟩⟩
+    exact ⟨by simp, rfl, rfl, id, ⟨[], by simp, by simp [recvCount]⟩, ⟨[], by simp, IdsOk.nil _⟩, id⟩
 
 theorem abrm_inv (hh : Honest dev) (p : Profile) (s : St σ) :
     WeakInv s (abrm dev p s).1 (abrm dev p s).2 := by
   unfold abrm
   cases hab : s.h.abrm with
-  | some v => exact ⟨by simp, rfl, rfl, id, ⟨[], by simp, by simp [recvCount]⟩⟩
+  | some v => exact ⟨by simp, rfl, rfl, id, ⟨[], by simp, by simp [recvCount]⟩, ⟨[], by simp, IdsOk.nil _⟩, id⟩
   | none =>
     simp only
     have := readReg_inv hh p s ABRM_DEVICE_CAPABILITY.1 ABRM_DEVICE_CAPABILITY.2 (by decide)
@@ -756,7 +861,7 @@ theorem abrm_inv (hh : Honest dev) (p : Profile) (s : St σ) :
     rw [hrr] at this
     simp only at this
     rcases r1 with v | e | _
-    · exact ⟨by simp, this.retry, this.opened, this.id16, this.log⟩
+    · exact ⟨by simp, this.retry, this.opened, this.id16, this.log, this.ids, this.u32⟩
     · exact this.change _ (by simp)
     · exact absurd rfl this.no_panic
 
@@ -797,7 +902,9 @@ theorem initializeConfig_inv (hh : Honest dev) (p : Profile) (s : St σ) :
             rw [e6] at h6; simp only at h6
             have hall := (((((h1.trans h2).trans h3).trans h4).trans h5).trans h6)
             rcases r6 with ma | e | _
-            · exact ⟨by simp, hall.retry, hall.opened, hall.id16, hall.log⟩
+            · have hmc := readSbrmReg_lt p s4 s5 sbrm SBRM_MAXIMUM_COMMAND_TRANSFER_LENGTH mc e5
+              exact ⟨by simp, hall.retry, hall.opened, hall.id16, hall.log, hall.ids,
+                fun _ => by simpa [SBRM_MAXIMUM_COMMAND_TRANSFER_LENGTH] using hmc⟩
             · exact hall.change _ (by simp)
             · exact absurd rfl h6.no_panic
           · exact ((((h1.trans h2).trans h3).trans h4).trans h5).change _ (by simp)
@@ -818,10 +925,12 @@ theorem ctlReq_inv (s : St σ) (r : CtlReq) :
   rcases h : dev.ctl s.d r with ⟨d, e⟩
   cases e with
   | none =>
-    exact ⟨⟨by simp, rfl, rfl, id, ⟨[.ctl r (ctlTimeout s.h.cfg r) none], by simp [St.push], by simp [recvCount]⟩⟩,
+    exact ⟨⟨by simp, rfl, rfl, id, ⟨[.ctl r (ctlTimeout s.h.cfg r) none], by simp [St.push], by simp [recvCount]⟩,
+      ⟨[.ctl r (ctlTimeout s.h.cfg r) none], by simp [St.push], IdsOk.nosend _ _ (by simp [sendCount])⟩, id⟩,
       Or.inl rfl⟩
   | some ue =>
-    exact ⟨⟨by simp, rfl, rfl, id, ⟨[.ctl r (ctlTimeout s.h.cfg r) (some ue)], by simp [St.push], by simp [recvCount]⟩⟩,
+    exact ⟨⟨by simp, rfl, rfl, id, ⟨[.ctl r (ctlTimeout s.h.cfg r) (some ue)], by simp [St.push], by simp [recvCount]⟩,
+      ⟨[.ctl r (ctlTimeout s.h.cfg r) (some ue)], by simp [St.push], IdsOk.nosend _ _ (by simp [sendCount])⟩, id⟩,
       Or.inr ⟨ctlTimeout s.h.cfg r, ue, by simp [St.push]⟩⟩
 
 theorem initializeChannel_inv (hh : Honest dev) (p : Profile) (s : St σ) :
@@ -853,7 +962,8 @@ theorem initializeChannel_inv (hh : Honest dev) (p : Profile) (s : St σ) :
               { s4.h.cfg with maxCmd := Config.default.maxCmd, maxAck := Config.default.maxAck } } } :
               St σ)).1 (initializeConfig dev p ({ s4 with h := { s4.h with cfg := { s4.h.cfg with
               maxCmd := Config.default.maxCmd, maxAck := Config.default.maxAck } } } : St σ)).2 :=
-            ⟨h5.no_panic, h5.retry, h5.opened, h5.id16, h5.log⟩
+            ⟨h5.no_panic, h5.retry, h5.opened, h5.id16, h5.log, h5.ids,
+              fun _ => h5.u32 (by show (128 : Nat) < 2 ^ 32; omega)⟩
           exact (((h1.trans h2).trans h3).trans h4).trans h45
         · exact ((h1.trans h2).trans h3).trans h4
         · exact absurd rfl h4.no_panic
@@ -931,6 +1041,50 @@ theorem open_inv (hh : Honest dev) (p : Profile) (s : St σ) :
     · simp only at *
       rename_i hnp
       exact absurd rfl hnp
+
+/-- request-id accounting and the u32 range of `maximum_cmd_length` across `open` -/
+theorem open_ids (hh : Honest dev) (p : Profile) (s : St σ) :
+    (∃ evs, (Control.open dev p s).1.logRev = evs ++ s.logRev ∧
+      IdsOk s.h.nextReqId (Control.open dev p s).1.h.nextReqId evs) ∧
+    (s.h.cfg.maxCmd < 2 ^ 32 → (Control.open dev p s).1.h.cfg.maxCmd < 2 ^ 32) := by
+  unfold Control.open
+  by_cases hop : s.h.opened = true
+  · simp only [if_pos hop]
+    exact ⟨⟨[], by simp, IdsOk.nil _⟩, id⟩
+  · simp only [if_neg hop]
+    have h1 := (ctlReq_inv (dev := dev) s .claim).1
+    rcases e1 : ctlReq dev s .claim with ⟨s1, r1⟩
+    rw [e1] at h1; simp only at h1
+    obtain ⟨f1, m1, i1⟩ := h1.ids
+    have u1 := h1.u32
+    rcases r1 with u | e | _
+    · simp only
+      have h2 := initializeChannel_inv hh p ({ s1 with h := { s1.h with opened := true } } : St σ)
+      rcases e2 : initializeChannel dev p ({ s1 with h := { s1.h with opened := true } } : St σ)
+        with ⟨s2, r2⟩
+      rw [e2] at h2; simp only at h2
+      obtain ⟨f2, m2, i2⟩ := h2.ids
+      have u2 := h2.u32
+      simp only at m2 i2 u2
+      have h12 : ∃ evs, s2.logRev = evs ++ s.logRev ∧ IdsOk s.h.nextReqId s2.h.nextReqId evs :=
+        ⟨f2 ++ f1, by rw [m2, m1]; simp, i1.trans i2⟩
+      rcases r2 with u | e | _
+      · exact ⟨h12, fun h => u2 (u1 h)⟩
+      · simp only
+        have h3 := (ctlReq_inv (dev := dev) s2 .release).1
+        rcases e3 : ctlReq dev s2 .release with ⟨s3, r3⟩
+        rw [e3] at h3; simp only at h3
+        obtain ⟨f3, m3, i3⟩ := h3.ids
+        have u3 := h3.u32
+        have h13 : ∃ evs, s3.logRev = evs ++ s.logRev ∧ IdsOk s.h.nextReqId s3.h.nextReqId evs :=
+          ⟨f3 ++ (f2 ++ f1), by rw [m3, m2, m1]; simp, (i1.trans i2).trans i3⟩
+        rcases r3 with u | e3' | _
+        · exact ⟨h13, fun h => u3 (u2 (u1 h))⟩
+        · exact ⟨h13, fun h => u3 (u2 (u1 h))⟩
+        · exact ⟨h13, fun h => u3 (u2 (u1 h))⟩
+      · exact ⟨h12, fun h => u2 (u1 h)⟩
+    · exact ⟨⟨f1, m1, i1⟩, u1⟩
+    · exact ⟨⟨f1, m1, i1⟩, u1⟩
 
 /-! ### recovery: the device conforms again but still has stale acknowledges queued -/
 
